@@ -1,6 +1,10 @@
-/- line-protocol driver for C08: `drv_c08 <sub-command>` reads operations on stdin, prints one canonical line per operation.
+/- line-protocol driver for C08: `drv_c08 declspec|specdecl|layout|speclayout` (see Driver/LayoutCmd.lean).
    Core Lean only (nothing imported here may import Mathlib, or the executable will not link). -/
+import ChibiVerif.Driver.LayoutCmd
 
 def main (args : List String) : IO UInt32 := do
-  IO.eprintln s!"drv_c08: no sub-commands yet (args {args})"
-  return 2
+  match args with
+  | sub :: _ => ChibiVerif.Driver.layoutMain sub
+  | _ =>
+    IO.eprintln "usage: drv_c08 declspec|specdecl|layout|speclayout"
+    return 2
